@@ -43,10 +43,13 @@ class Env:
     def __init__(self):
         self.s = _make()
         ctx = self.s.context
-        self.kj = {"cB": build_keyjar([{"type": "RSA", "use": ["sig"]}, {"type": "EC", "crv": "P-256", "use": ["sig"]}]),
+        global _KJ
+        if _KJ is None:
+            _KJ = {"cB": build_keyjar([{"type": "RSA", "use": ["sig"]}, {"type": "EC", "crv": "P-256", "use": ["sig"]}]),
                    "cC": build_keyjar([{"type": "EC", "crv": "P-256", "use": ["sig"]}]),
                    "cE": build_keyjar([{"type": "EC", "crv": "P-256", "use": ["sig"]}]),
                    "foreign": build_keyjar([{"type": "EC", "crv": "P-256", "use": ["sig"]}])}
+        self.kj = _KJ
         self.clients = {
             "cA": {"secret": "secret_A_0123456789_0123456789_ab", "exp": 0, "allowed": {}},
             "cB": {"secret": "secret_B_0123456789_0123456789_ab", "exp": 0, "allowed": {}},
@@ -81,10 +84,18 @@ def _restart(E):
     B = _make()
     B.context.load(store, init_args={"upstream_get": B.unit_get, "handler": B.context.session_manager.token_handler})
     E.s = B
+    E.restored = True
 
 
-def env():
+_KJ = None
+
+
+def env(fresh=False):
+    """fresh: a history starts on a provider that was CONSTRUCTED, not on one that an earlier history restored from an export (the two
+    may hold differently typed state)"""
     global _env
+    if fresh and _env is not None and getattr(_env, "restored", False):
+        _env = None
     if _env is None:
         _env = Env()
     return _env
@@ -98,7 +109,7 @@ AUD_KINDS = ["endpoint", "issuer", "wrong", "list_with_endpoint", "other_endpoin
 def gen_request(rng, jtis):
     ep = rng.choice(["token", "token", "introspection", "token_revocation", "userinfo"])
     cid = rng.choice(["cA", "cB", "cC", "cD", "cE", "cF"])
-    r = {"ep": ep, "client": cid, "basic": None, "post": None, "assertion": None, "bearer": None, "tick": rng.choice([0, 0, 0, 10, 2000])}
+    r = {"ep": ep, "client": cid, "basic": None, "post": None, "assertion": None, "bearer": None, "tick": rng.choice([0, 0, 0, 10, 2000, 4000])}
     k = rng.random()
     if ep == "userinfo":
         r["bearer"] = rng.choice(["unknown-token", "garbage"])
@@ -111,7 +122,7 @@ def gen_request(rng, jtis):
         jti = rng.choice(["fresh", "fresh", "none", "reuse"])
         has_key, has_sec = cid in ("cB", "cC", "cE"), cid != "cC"
         good = (["own_key"] * 4 if has_key else []) + (["own_hs"] * 4 if has_sec else [])
-        r["assertion"] = {"kind": rng.choice(good + ASSERT_KINDS), "aud": rng.choice(["endpoint"] * 5 + AUD_KINDS), "exp": rng.choice(["ok"] * 5 + ["expired", "absent"]),
+        r["assertion"] = {"kind": rng.choice(good + ASSERT_KINDS), "aud": rng.choice(["endpoint"] * 5 + AUD_KINDS), "exp": rng.choice(["ok"] * 4 + ["long", "long", "expired", "absent"]),
                           "sub": rng.choice(["iss", "iss", "other", "absent"]), "jti": jti, "jti_val": (rng.choice(jtis) if (jti == "reuse" and jtis) else "j%06d" % rng.randrange(10**6)) if jti != "none" else None}
         if r["assertion"]["jti_val"]:
             jtis.append(r["assertion"]["jti_val"])
@@ -139,12 +150,12 @@ def cases(rng, tier):
         # verbatim replays of earlier assertions (same compact JWS), after intervening requests
         idx = [i for i, r in enumerate(reqs) if r["assertion"]]
         for i in rng.sample(idx, min(len(idx), 2)):
-            rep = dict(reqs[i], tick=rng.choice([0, 5]), replay_of=i)
+            rep = dict(reqs[i], tick=rng.choice([0, 5, 4000]), replay_of=i)     # a long-lived assertion is still valid hours later
             reqs.insert(rng.randint(i + 1, len(reqs)), rep)
         # fix up indices after insertion: replay_of refers to the first request carrying the same assertion spec
         for k, r in enumerate(reqs):
             if "replay_of" in r:
-                r["replay_of"] = next(j for j, q in enumerate(reqs) if q is not r and q.get("assertion") == r["assertion"] and "replay_of" not in q)
+                r["replay_of"] = next(j for j, q in enumerate(reqs) if q is not r and q.get("assertion") == r["assertion"] and q["client"] == r["client"] and "replay_of" not in q)
         if rng.random() < 0.12 and len(reqs) > 2:
             reqs[rng.randint(1, len(reqs) - 1)]["restart"] = True       # export / import into a fresh instance just before this request
         out.append({"t": "hist", "reqs": reqs})
@@ -230,7 +241,7 @@ def build(E, r, cache=None, idx=None):
             payload["sub"] = "cA" if iss != "cA" else "cB"       # a valid assertion by one client naming another as subject
         if a["jti_val"]:
             payload["jti"] = a["jti_val"]
-        lifetime = {"ok": 600, "expired": -100, "absent": 0}[a["exp"]]
+        lifetime = {"ok": 600, "long": 86400, "expired": -100, "absent": 0}[a["exp"]]
         jwt = JWT(kj, iss=iss, sign_alg=alg, lifetime=lifetime if lifetime else 0, sign=(alg != "none"))
         if a["exp"] == "absent":
             jwt.lifetime = 0
@@ -340,7 +351,7 @@ def _outcome(E, r, req, http_info):
 
 
 def impl(c):
-    E = env()
+    E = env(fresh=True)
     ctx = E.s.context
     ctx.jti_db.clear() if hasattr(ctx.jti_db, "clear") else None
     clock.CLOCK.t = T0
@@ -495,6 +506,12 @@ def corpus():
             first = rq(ep, cl, assertion=a("corpus-%s-%s" % (ep, kind), kind=kind))
             out.append({"t": "hist", "reqs": [first, rq("introspection", "cA", basic={"kind": "right"}),
                                               dict(first, tick=5, replay_of=0, restart=True)]})
+    # a long-lived assertion presented again hours later, with other clients' assertions in between (the replay cache must not forget)
+    for kind, cl in (("own_key", "cB"), ("own_hs", "cA")):
+        first = rq("token", cl, assertion=a("corpus-long-%s" % kind, kind=kind, exp="long"))
+        out.append({"t": "hist", "reqs": [first, rq("introspection", "cE", assertion=a("corpus-mid1-%s" % kind, kind="own_hs"), tick=4000),
+                                          dict(first, tick=4000, replay_of=0), rq("token", "cE", assertion=a("corpus-mid2-%s" % kind, kind="own_hs"), tick=4000),
+                                          dict(first, tick=10, replay_of=0, ep="token")]})
     # authenticated as one client in the header / by assertion, the body names another one
     for ep in ("token", "introspection", "token_revocation"):
         out.append({"t": "hist", "reqs": [rq(ep, "cB", basic={"kind": "right"}, post={"kind": "empty", "id": "cA"}),
